@@ -534,6 +534,8 @@ func genC10(t *rapid.T) *Bundle {
 	c := oneClientCase("C10", sim, doc, op, c10FollowUp(t))
 	c.Stubs = stubs
 	c.Sim.StepBudget = 2000000
+	c.TypedTables = rapid.IntRange(0, 4).Draw(t, "typed_tables") == 0
+	c.NativeInts = rapid.IntRange(0, 3).Draw(t, "native_ints") == 0
 	if op.Vars >= 0 {
 		c.Vars = []map[string]any{{}}
 	}
